@@ -61,7 +61,7 @@ CONFIG = {
     'must_sig': ['fair_states:agree', 'mc:agree', 'mc:CTL', 'mc:CTLS',
                  'mc:LTL', 'F:empty_list', 'F:all_states', 'F:two_sets',
                  'shape:fair_and_unfair_cycle', 'fairset:proper',
-                 'labels:fair_lookalikes'],
+                 'labels:fair_lookalikes', 'shape:two_lobes'],
     'rule': ('cases = (structure, F, formula, logic); structures: class '
              'representatives with <=2 states (all) and 3 states (sample; all '
              'in thorough), hand-built structures where a fair SCC sits next '
@@ -326,6 +326,50 @@ def fair_unfair_structures():
     return out
 
 
+def two_lobes(r):
+    """Two (or three) candidate components, each with >= 2 states and
+    self-loops (the shape even the known-defective fair-SCC test accepts),
+    meeting different constraint sets; listed in a random order so that the
+    enumeration order of the components varies."""
+    k = r.choice([2, 2, 3])
+    n = 2 * k + r.randint(0, 1)
+    succ = [0] * n
+    for c in range(k):
+        a, b = 2 * c, 2 * c + 1
+        succ[a] |= (1 << a) | (1 << b)
+        succ[b] |= (1 << a) | (1 << b) if r.random() < 0.7 else (1 << a)
+    for c in range(k - 1):
+        if r.random() < 0.6:
+            succ[2 * c + 1] |= 1 << (2 * c + 2)       # lobe c -> lobe c+1
+    if n > 2 * k:
+        succ[n - 1] = 1 << r.randrange(n - 1)          # a transient state
+    perm = list(range(n))
+    r.shuffle(perm)
+    # relabel so that listing order differs from construction order
+    succ2 = [0] * n
+    for i in range(n):
+        m = 0
+        for j in range(n):
+            if succ[i] >> j & 1:
+                m |= 1 << perm[j]
+        succ2[perm[i]] = m
+    labels = [frozenset(a for a in ('p', 'q') if r.random() < 0.5)
+              for _ in range(n)]
+    nk = NK(range(n), succ2, labels)
+    lobes = [[perm[2 * c], perm[2 * c + 1]] for c in range(k)]
+    Fs = []
+    for c in range(k):
+        Fs.append([{lobes[c][0]}])
+        Fs.append([{lobes[c][1]}])
+    for c in range(k):
+        for d in range(k):
+            if c != d:
+                Fs.append([{lobes[c][0]}, {lobes[d][1]}])
+    Fs.append([{lobes[0][0], lobes[1][0]}])
+    Fs.append([{lobes[0][0], lobes[1][1]}, {lobes[1][0]}])
+    return nk, Fs
+
+
 def f_lists(r, nk, k):
     """k lists of <=2 constraint sets over the states + the trivial ones."""
     states = list(nk.states)
@@ -461,6 +505,15 @@ def run(ctx):
             + [('CTLS', t) for t in fam[::5]]
         i = drive(nk, [[set(P) for P in F] for F in Fl] + [[], [set(
             nk.states)]], ts, i, ctx)
+    for k in range(160 if ctx.quick else 6000):
+        rr = gen.rng(ctx.seed, PROP, ('lobes', k))
+        nk, Fl = two_lobes(rr)
+        if not ctx.mine(k):
+            continue
+        LOG.sig['shape:two_lobes'] += 1
+        ts = [('CTL', t) for t in rr.sample(C1, 6)] + \
+            [('CTLS', t) for t in rr.sample(fam, 3)]
+        i = drive(nk, rr.sample(Fl, min(len(Fl), 6)), ts, i, ctx)
     for si, nk in enumerate(structs):
         rr = gen.rng(ctx.seed, PROP, si)
         if not ctx.mine(si):
